@@ -537,7 +537,7 @@ def run(ctx):
     from checks import kfhist
     hstats, pstats = {}, {}
     if not ctx.replay or hist_replay:
-        hists = [hist_replay] if hist_replay else [kfhist.gen_history(ctx.gen("kfh"), i, ctx.tier) for i in range(ctx.n(21, 120))]
+        hists = [hist_replay] if hist_replay else [kfhist.gen_history(ctx.gen("kfh"), i, ctx.tier) for i in range(ctx.n(21, 60))]
         hp, hc, hstats = kfhist.run_histories(ctx, binary, hists, "C01")
         prop_bad += hp
         corr_bad += hc
